@@ -106,9 +106,12 @@ class OfflineWorld(object):
             # the twin: an equal state of its own - built by the class's constructor (whatever the constructor wires
             # up belongs to the twin) and loaded with a deep copy of the live state's data
             tstate = ERS.ExcludeRegionState(self.live.plugin._logger)
-            for name, value in copy.deepcopy(live_state).__dict__.items():
+            memo = {}
+            for name, value in live_state.__dict__.items():
                 if not callable(value):
-                    tstate.__dict__[name] = value
+                    # attribute by attribute (one memo, so that objects shared between attributes stay shared):
+                    # independent of how the state class itself chooses to be copied
+                    tstate.__dict__[name] = copy.deepcopy(value, memo)
             self.twin = GH.GcodeHandlers(tstate, self.live.plugin._logger)
             self.eol_seen = None
             st = live_state
